@@ -852,7 +852,59 @@ pub fn run(ctx: &Ctx) -> Result<Report, String> {
             },
         );
     capped |= hc.1;
-    let hc = hc.0;
+    let mut hc = hc.0;
+
+    // 3b. long chords: one chord of four keys (every one over the chord keys), alone or next to a
+    // single-key chord, so that a failure can happen with three keys pending
+    let long_maps: Vec<Vec<Vec<u8>>> = chords(&HANDLER_CHORD_KEYS, 4, 4)
+        .into_iter()
+        .flat_map(|long| {
+            let mut v = vec![vec![long.clone()]];
+            for k in HANDLER_CHORD_KEYS.iter() {
+                if *k != long[0] {
+                    v.push(vec![long.clone(), vec![*k]]);
+                }
+            }
+            v
+        })
+        .collect();
+    let long_typed = ctx.tier.pick(6usize, 7usize);
+    let lc = long_maps
+        .par_iter()
+        .map(|bindings| {
+            let mut counts = HandlerCounts::default();
+            let (map, dict) = build(bindings, 0);
+            for len in 0..=long_typed {
+                for idx in 0..4u64.pow(len as u32) {
+                    let typed = typed_string(idx, len);
+                    let w = || json!({"kind": "handler", "map": bindings.iter().map(|c| show(c)).collect::<Vec<_>>(), "typed": show(&typed)});
+                    match catch(|| check_matcher(&map, &dict, bindings, &typed, &mut counts)) {
+                        Err(p) => viol.add(format!("handler:{}", p.key()), format!("panicked: {}", p.message), w()),
+                        Ok(Some((k, d))) => viol.add(format!("handler:{k}"), d, w()),
+                        Ok(None) => {}
+                    }
+                }
+            }
+            counts
+        })
+        .reduce(HandlerCounts::default, |a, b| HandlerCounts {
+            runs: a.runs + b.runs,
+            keys: a.keys + b.keys,
+            fire_idle: a.fire_idle + b.fire_idle,
+            fire_after_unbound: a.fire_after_unbound + b.fire_after_unbound,
+            silent: a.silent + b.silent,
+            free: a.free + b.free,
+            fired: a.fired + b.fired,
+        });
+    let long_runs = lc.runs;
+    let long_maps_n = long_maps.len();
+    hc.runs += lc.runs;
+    hc.keys += lc.keys;
+    hc.fire_idle += lc.fire_idle;
+    hc.fire_after_unbound += lc.fire_after_unbound;
+    hc.silent += lc.silent;
+    hc.free += lc.free;
+    hc.fired += lc.fired;
 
     lap("matcher", &mut timing);
     // 4. parsers
@@ -889,6 +941,7 @@ pub fn run(ctx: &Ctx) -> Result<Report, String> {
     let transitions = s3.transitions + s2.transitions;
     let pairs = ld(&pairs);
     let mut r = Report::new("model_checking");
+    r.set("matcher_long_chords", json!({"maps": long_maps_n, "runs": long_runs, "typed_len": long_typed}));
     r.set("states", states)
         .set("transitions", transitions)
         .set("traces_validated_against_impl", transitions + pairs + hc.runs)
